@@ -21,8 +21,9 @@ from run import Case, VERIF, REPO
 import zoo
 
 PROPERTY = "C01"
-LEAN_MODULE = "PyOak.Props.C05"
-THEOREMS = ["PyOak.C05.dfs_top_down"]
+LEAN_MODULE = "PyOak.Props.C01"
+THEOREMS = ["PyOak.C01." + t for t in ["cid_eq_iff", "isEqual_iff", "cid_ignores", "cid_congr_kids",
+                                       "cid_replace_child", "cid_perm", "canon_perm", "DC.render_inj"]]
 RULE = ("pairs (a, b) of zoo trees: b is a rebuilt copy of a with other origins / non-comparable props / frozensets in "
         "another insertion order (content-equal by construction) or with one single-point mutation (property value or "
         "type 1/True/'1', class, tuple order/length, child moved between fields, absent<->present, falsy<->None, "
